@@ -24,7 +24,7 @@ ASSUMPTIONS = [
 REQUIRED = ['complete_requested', 'nested_complete', 'descendant_cancelled', 'descendant_stopped', 'descendant_raised',
             'descendant_from_generator_step', 'several_roots_in_flight', 'complete_channels_override', 'closure_depth_3plus',
             'handler_suspended_in_call_or_wait', 'call_or_wait_timed_out_in_closure', 'suspended_again_right_after_timeout',
-            'root_events_fired_on_a_component_that_joins_later', 'feedback_event_handler_in_closure', 'derived_child_event_in_closure', 'driven_by_tick_from_the_calling_thread', 'manager_had_an_earlier_run', 'earlier_run_in_another_thread', 'earlier_run_ended_with_exit_code']
+            'root_events_fired_on_a_component_that_joins_later', 'complete_requesting_event_object_fired_again', 'feedback_event_handler_in_closure', 'derived_child_event_in_closure', 'driven_by_tick_from_the_calling_thread', 'manager_had_an_earlier_run', 'earlier_run_in_another_thread', 'earlier_run_ended_with_exit_code']
 REQUIRED_OBLIGATIONS = ['COMPLETE_ONCE', 'COMPLETE_AFTER_CLOSURE', 'COMPLETE_EVENTUALLY']
 WORKER_TIMEOUT = {'quick': 300, 'thorough': 1500}
 ENGINE = 'stepping-driver'
@@ -114,8 +114,7 @@ def run_case(case):
             w.fire(spec, target=carrier)
         carrier.register(w.app)
     else:
-        for spec in case['fires']:
-            w.fire(spec)
+        roots = [w.fire(spec)[1] for spec in case['fires']]
     if case.get('drive') == 'tick':
         # the manager is not run(): the calling thread drives it with tick() until nothing is left (no timeouts in such programs)
         settled = w.settle(max_ticks=1500)
@@ -132,6 +131,18 @@ def run_case(case):
         while len(carrier):          # ... nor when it is flushed as a root of its own
             carrier.flush()
         settled = w.settle(max_ticks=300)
+    for _ in range(case.get('refire', 0) if carrier is None else 0):
+        # the same event OBJECTS are fired once more after their earlier firing has been handled completely (what a persistent Timer
+        # does, or a retry from a <name>_complete handler): every firing has a closure and a completion of its own
+        if not settled or w.run_raised is not None:
+            break
+        for i, uid in enumerate(roots):
+            if not w.events[uid]['spec'].get('cancel'):
+                roots[i] = w.refire(uid)[1]
+        if case.get('drive') == 'tick':
+            settled = w.settle(max_ticks=1500)
+        else:
+            settled = w.run(max_iters=1500)
     if w.run_raised is not None:
         return [('LOOP_RAISED', {'error': repr(w.run_raised)})], {'marks': set(), 'counts': {}}, w
     if not settled:
@@ -176,6 +187,8 @@ def evaluate(case, w):
         elif e[0] == 'RX':
             susp.setdefault(e[1], []).append((i, e[2], e[5]))
     raised = {e[1] for e in w.log if e[0] == 'PX'}
+    if case.get('refire') and any(i.get('refire_of') is not None and i['flags'].get('complete') for i in w.events.values()):
+        marks.add('complete_requesting_event_object_fired_again')
     if case.get('carrier'):
         marks.add('root_events_fired_on_a_component_that_joins_later')
     if case.get('drive') == 'tick':
@@ -320,6 +333,8 @@ def corpus():
                                earlier_run=pre, drive=drive))
         cs.append(dict(base, name=base['name'] + '-tick', drive='tick'))
         cs.append(dict(base, name=base['name'] + '-carrier', carrier=True))
+        cs.append(dict(base, name=base['name'] + '-refire', refire=2))
+        cs.append(dict(base, name=base['name'] + '-refire-tick', refire=1, drive='tick'))
         cs.append(dict(base, name=base['name'] + '-carrier-tick', carrier=True, drive='tick'))
     # generator handlers suspended in call()/wait() inside the closure; the callee outlasts the timeout
     slow = HD(8, 'slow', [['yield', None]] * 6 + [['fire', {'name': 'late'}]], gen=True)
@@ -385,6 +400,8 @@ def gen_case(rng):
         case['drive'] = 'tick'
     if rng.random() < 0.12:
         case['carrier'] = True
+    elif rng.random() < 0.2 and not any(a[0] == 'stop' for h in case['handlers'] for a in h['body']):
+        case['refire'] = rng.choice([1, 1, 2])
     if r < 0.15 or rng.random() < 0.08:
         case['earlier_run'] = {'thread': rng.random() < 0.6, 'code': rng.choice([None, 0, 3, 'bye'])}
     return case
